@@ -1025,7 +1025,7 @@ def goalsOk (σ : St) (nl : Bool) : List Tok → Bool
       && goalsOk (step σ (lexTok nl t)) false ts
 
 theorem sep_core : ∀ (ts : List Tok) (w : W) (σ : St) (nl : Bool) (acc : List Token) (fuel : Nat),
-    ts.length < fuel → (∀ t ∈ ts, tokOk t = true) → adjChain ts = true → (nl = true → headOk ts = true) →
+    (render w ts).length < fuel → (∀ t ∈ ts, tokOk t = true) → adjChain ts = true → (nl = true → headOk ts = true) →
     goalsOk σ nl ts = true →
     lexLoop fuel σ nl (render w ts) acc = some (acc.reverse ++ lexToks nl ts) := by
   intro ts
@@ -1065,13 +1065,20 @@ theorem sep_core : ∀ (ts : List Tok) (w : W) (σ : St) (nl : Bool) (acc : List
           · exact absurd hbr h
           · exact h)
       have hstart := start_tok nl a (render (next w a) rest) ha hstopstart.2
+      have hlen : (seps w a).length + (txt a).length + (render (next w a) rest).length < f + 1 := by
+        simpa [render, List.length_append, Nat.add_assoc] using hf
+      have htl : 1 ≤ (txt a).length := by
+        have := txt_ne_nil a ha
+        cases h : txt a with
+        | nil => exact absurd h this
+        | cons c r => simp
       have hstep := lexLoop_token f σ nl (seps w a) (txt a) (render (next w a) rest) (kind a) acc
-        (seps_spaces w a) (txt_ne_nil a ha) hstart hscan
+        (seps_spaces w a) (txt_ne_nil a ha) (by omega) hstart hscan
       have hadj' : adjChain rest = true := by
         cases rest with
         | nil => rfl
         | cons b more => simp only [adjChain, Bool.and_eq_true] at hadj; exact hadj.2
-      have hih := ih (next w a) (step σ (lexTok nl a)) false (lexTok nl a :: acc) f (by simp at hf; omega)
+      have hih := ih (next w a) (step σ (lexTok nl a)) false (lexTok nl a :: acc) f (by omega)
         hrest hadj' (by intro h; exact absurd h (by simp)) hg3
       simp only [render]
       rw [hstep]
